@@ -35,6 +35,24 @@ random geometries x ~20 points, 6 routes; largest deviation seen -> tolerance us
   Hirshfeld share / sum to one                                  4.4e-16 -> 1e-12
   vectorised evaluator vs 50-digit evaluator (harness self-check) 5.9e-17, machinery failure above 1e-15
 Seeded defects (selftest) move these quantities by 1e-2 .. 1, i.e. >= 9 orders above the tolerances.
+
+Audit extension (X1..X5, see the block comment before ``extra_cases``): larger / differently typed index
+tables, the empty grid and the Hirshfeld ownership rule in the TLC chunk model (PickExtra, ObsConformsX);
+3-D programs up to 12 atoms and switching order 6; nearly touching / distant / translated / integer-lattice
+geometries; argument forms, untouched inputs, instance reuse, radii leakage; radii overrides x fall-back
+(Scenarios, LemmaFallbackIn); user cut-off of compute_atom_weight (ProgramC, CutFamily, LemmaCutFamily);
+Hirshfeld against the tabulated pro-atom data at the tabulated radii (HirshProgram, LemmaHirsh).
+New tolerances (largest value seen on the pinned tree over seeds 0..5 quick + thorough -> tolerance):
+  longdouble inputs vs float64 reference (scaled like spec_3d)   6.2e-16 -> 1e-11 ("spec_3d")
+  all other argument forms, instance reuse, radii leak            0 (bitwise) -> 1e-12 ("route")
+  float32 inputs vs the same values as float64, near points       6.5e-07 -> 1e-3 ("float32")
+  radii-override scenarios / user cut-off vs spec (scaled)        2.7e-16 -> 1e-11 ("spec_3d")
+  Hirshfeld density / share at tabulated radii (relative)         4.1e-14 -> 1e-9 ("hirsh_table"; budget: points
+        hit the tabulated radius to 1e-13, |d ln rho / dr| <= 16 on the knots used -> 2e-12)
+  Hirshfeld rigid motion / relabelling, near points               8.9e-16 -> 1e-9 ("hirsh_rigid")
+The seeded X-mutants move these by >= 1e-2 (float32: the clause only has to notice exceptions and O(1) errors).
+Harness speed: the exact / 50-digit runs of the spec programs use expr_np.run_program_scalar (same arithmetic
+as run_program, cross-checked against it once per worker; MachineryError on any difference).
 """
 from __future__ import annotations
 
@@ -48,12 +66,13 @@ import numpy as np
 
 from .. import tlc
 from ..evidence import Report
-from ..expr_np import run_program
+from ..expr_np import run_program, run_program_scalar
 
 PROP = "C06"
 _TOL = {"spec_rational": 1e-12, "route": 1e-12, "spec_3d": 1e-11, "rigid": 1e-10, "perm": 1e-12,
         "unity": 1e-12, "hirshfeld": 1e-12}
 MAX_REPORT = 12  # violations reported per category (the rest is counted)
+MAX_ATOMS_X, MAX_ORDER_X = 12, 6  # audit extension: 3-D programs up to 12 atoms (order 3) / order 6 (<= 6 atoms)
 
 
 # ---------------------------------------------------------------------------------------------
@@ -73,7 +92,15 @@ def write_tables(wd, maxm, maxn, max3, defined):
         f"MaxM == {maxm}", f"MaxN == {maxn}", f"MaxAtoms3 == {max3}", "ZMax == 86",
         "Defined == " + tlc.tla(set(defined)),
         'Obs == JsonDeserialize("obs_becke.json")',
+        "\\* audit extension: bounds of the extended 3-D programs, extra chunk cases and their observations",
+        f"MaxAtomsX == {MAX_ATOMS_X}", f"MaxOrderX == {MAX_ORDER_X}",
+        'ExtraCases == JsonDeserialize("extra_becke.json")',
+        'ObsExtra == JsonDeserialize("obs_extra_becke.json")',
+        'ObsZero == JsonDeserialize("obs_zero_becke.json")',
         "====", ""]))
+    for f in ("extra_becke.json", "obs_extra_becke.json", "obs_zero_becke.json"):
+        if not (wd / f).exists():
+            (wd / f).write_text("[]")
 
 
 # ---------------------------------------------------------------------------------------------
@@ -226,6 +253,7 @@ def _rational_worker(job):
     mx = {"spec_rational": 0.0, "route": 0.0}
     nontrivial = 0
     pts = [_fr(p) for p in points]
+    checked_slow = {}
     for g in geoms:
         m, order = g["M"], g["order"]
         pos = [_fr(q) for q in g["pos"]]
@@ -239,7 +267,13 @@ def _rational_worker(job):
             for b in range(m):
                 env[io["atoms"][b][0]] = pos_[b]
                 env[io["radii"][b]] = rad_[b]
-            e = run_program(prog, env, "fraction")
+            e = run_program_scalar(prog, env, "fraction")
+            if checked_slow.setdefault("todo", True):
+                # harness self-check: the fast exact evaluator against the reference evaluator, once per worker
+                checked_slow["todo"] = False
+                e0 = run_program(prog, env, "fraction")
+                if any(e0[k] != e[k] for k in e0):
+                    raise tlc.MachineryError("run_program_scalar and run_program disagree in exact arithmetic")
             return [e[o] for o in io["outputs"]], [e[a] for a in io["alphas"]]
 
         want = []
@@ -409,7 +443,11 @@ def _geometry_worker(job):
                         env[io["atoms"][b][k]] = Fraction(float(atc[b, k]))
                 for b in range(m):
                     env[io["radii"][b]] = Fraction(radii_of[int(z[b])])
-                e = run_program(ent["prog"], env, "mp")
+                e = run_program_scalar(ent["prog"], env, "mp")
+                if it == 0 and j == 0 and seed % 8 == 0:   # the fast 50-digit evaluator against the reference one, every 8th worker
+                    e0 = run_program(ent["prog"], env, "mp")
+                    if any(e0[o] != e[o] for o in io["outputs"]):
+                        raise tlc.MachineryError("run_program_scalar and run_program disagree at 50 digits")
                 d = max(abs(float(e[o]) - want[b, j]) for b, o in enumerate(io["outputs"]))
                 mx["np_vs_mp"] = max(mx["np_vs_mp"], d / scale[j])
         # rigid motion and permutation (whole-grid route)
@@ -559,6 +597,616 @@ def _hirshfeld(rep, rng, ncases):
     return mx
 
 
+# ---------------------------------------------------------------------------------------------
+# Audit extension (DESIGN section 12 / Appendix I list the seeded changes that motivated it).
+#  X1  extra chunk cases: up to 12 atoms / 60 points, the empty grid, index tables handed over as
+#      list / tuple / ndarray of several integer types, and the Hirshfeld call (same ownership
+#      rule) - all judged by TLC (PickExtra, ObsConformsX in spec/Becke.tla)
+#  X2  3-D replays against the extended programs: 10..12 atoms, switching orders 4..6, nearly
+#      touching / widely separated / far translated / integer-lattice geometries
+#  X3  argument forms (select / pt_ind / atnums / coordinates: types, layouts, read-only), inputs
+#      left untouched, one instance reused for different molecules, custom radii do not leak
+#  X4  radii overrides x fall-back (spec: Scenarios, RadiusSourceIn), user cut-off of
+#      compute_atom_weight (spec: ProgramC, CutFamily)
+#  X5  Hirshfeld: densities and shares against the tabulated pro-atom data at the tabulated radii
+#      (oracle independent of generate_proatom), rigid motion and relabelling, all shipped elements
+# Calibration of the new tolerances (pinned tree, seeds 0..5 quick + thorough, largest value seen -> tolerance):
+#   forms / state / longdouble inputs vs reference call      8.9e-16 -> 1e-12 (existing "route")
+#   float32 inputs vs the same values in float64             5.2e-07 -> 1e-3  ("float32"; eps32 = 6e-8 times
+#        the slope of the order-3 cell function (<= 3.4 per partner, <= 9 partners) gives <= 2e-6)
+#   Hirshfeld at tabulated radii (relative, knots with density >= 1e-6, 0.02 <= r)   see _TOL["hirsh_table"]
+#   Hirshfeld rigid motion / relabelling (near points)         see _TOL["hirsh_rigid"]
+_TOL.update({"float32": 1e-3, "hirsh_table": 1e-9, "hirsh_rigid": 1e-9})
+
+ROUTES_X = ["call", "generate", "compute", "call-int32", "call-int16", "generate-ndarray", "compute-ndarray",
+            "generate-tuple", "compute-int32", "hirshfeld", "hirshfeld-int32", "call-uint64", "call-uint32",
+            "hirshfeld-uint64"]   # = RouteNamesX of spec/Becke.tla
+_CHUNK_ZX = _CHUNK_Z + [5, 14, 3, 35]
+_HIRSH_Z = [1, 6, 8, 7]
+_PROG_CACHE = {}
+
+
+def _load_json(path):
+    import os
+    key = (str(path), os.path.getmtime(path))
+    if key not in _PROG_CACHE:
+        with open(path) as f:
+            _PROG_CACHE[key] = json.load(f)
+    return _PROG_CACHE[key]
+
+
+def extra_cases(seed, quick):
+    """Index tables beyond the exhaustive bounds (generated from VERIF_SEED, handed to TLC as ExtraCases)."""
+    rng = np.random.default_rng(7919 * seed + 17)
+    cases = []
+
+    def add(m, n, cuts):
+        cases.append({"M": int(m), "N": int(n), "idx": [0] + sorted(int(c) for c in cuts) + [int(n)]})
+
+    for m in (1, 2, 7, 12):
+        add(m, 0, [0] * (m - 1))                     # the empty grid (M <= MaxM is part of the exhaustive tables)
+    add(2, 40, [20])                                  # one chunk much longer than the exhaustive bound
+    add(1, 33, [])
+    add(12, 60, [5 * k for k in range(1, 12)])
+    add(12, 7, [0, 0, 1, 1, 2, 3, 3, 3, 5, 6, 7])     # chunk size 1
+    count = 44 if quick else 400
+    while len(cases) < count + 8:
+        m = int(rng.integers(1, 13))
+        n = int(rng.integers(1, 61))
+        style = int(rng.integers(0, 4))
+        if style == 0:
+            cuts = rng.integers(0, n + 1, size=m - 1)
+        elif style == 1:
+            cuts = [(n * k) // m for k in range(1, m)]
+        elif style == 2:
+            vals = rng.integers(0, n + 1, size=2)
+            cuts = rng.choice(vals, size=m - 1)
+        else:
+            k = int(rng.integers(0, m))
+            cuts = [0] * k + [n] * (m - 1 - k)
+        add(m, n, cuts)
+    return cases
+
+
+def _hirsh_codes(m, n, idx, seed):
+    """Per-point code sum_a 4^a [weight * promolecule = density of atom a] for the Hirshfeld call (generic points)."""
+    from grid.hirshfeld import HirshfeldWeights
+    at = _chunk_geometry(m)
+    z = np.array([_HIRSH_Z[b % 4] for b in range(m)])
+    rng = np.random.default_rng(seed)
+    pts = at[rng.integers(0, m, size=n)] + rng.normal(size=(n, 3)) * 0.7 if n else np.zeros((0, 3))
+    got, e = _call(HirshfeldWeights(), pts, at, z, idx)
+    if e is not None or got.shape != (n,):
+        return [-1]
+    if n == 0:
+        return []
+    rho = np.array([HirshfeldWeights.generate_proatom(pts, at[b], int(z[b])) for b in range(m)])
+    prom = rho.sum(axis=0)
+    code = []
+    for p in range(n):
+        if not np.isfinite(got[p]):
+            return [-2]
+        code.append(sum(4 ** a for a in range(m) if abs(got[p] * prom[p] - rho[a, p]) <= 1e-13 * abs(rho[a, p])))
+    return code
+
+
+def _extra_worker(job):
+    start, cases = job
+    bw = _becke()
+    out = []
+    for k, c in enumerate(cases):
+        m, n, t = c["M"], c["N"], c["idx"]
+        at = _chunk_geometry(m)
+        z = np.array(_CHUNK_ZX[:m])
+        pt = [int(i) for i in t]
+        arr = np.array(pt)
+        leaf = [
+            _codes(m, n, lambda p: bw(p, at, z, arr)),
+            _codes(m, n, lambda p: bw.generate_weights(p, at, z, pt_ind=pt)),
+            _codes(m, n, lambda p: bw.compute_weights(p, at, z, pt_ind=pt)),
+            _codes(m, n, lambda p: bw(p, at, z, arr.astype(np.int32))),
+            _codes(m, n, lambda p: bw(p, at, z, arr.astype(np.int16))),
+            _codes(m, n, lambda p: bw.generate_weights(p, at, z, pt_ind=arr)),
+            _codes(m, n, lambda p: bw.compute_weights(p, at, z, pt_ind=arr)),
+            _codes(m, n, lambda p: bw.generate_weights(p, at, z, pt_ind=tuple(pt))),
+            _codes(m, n, lambda p: bw.compute_weights(p, at, z, pt_ind=arr.astype(np.int32))),
+            _hirsh_codes(m, n, arr, 1000 + start + k),
+            _hirsh_codes(m, n, arr.astype(np.int32), 1000 + start + k),
+            _codes(m, n, lambda p: bw(p, at, z, arr.astype(np.uint64))),
+            _codes(m, n, lambda p: bw(p, at, z, arr.astype(np.uint32))),
+            _hirsh_codes(m, n, arr.astype(np.uint64), 1000 + start + k),
+        ]
+        out.append(leaf)
+    return start, out
+
+
+def observe_extra(cases, maxm, pool):
+    jobs = [(i, cases[i:i + 6]) for i in range(0, len(cases), 6)]
+    obs = [None] * len(cases)
+    for start, leaves in pool.imap_unordered(_extra_worker, jobs):
+        for k, leaf in enumerate(leaves):
+            obs[start + k] = leaf
+    bw = _becke()
+    zero = []
+    for m in range(1, maxm + 1):
+        at, z = _chunk_geometry(m), np.array(_CHUNK_ZX[:m])
+        pt = [0] * (m + 1)
+        zero.append([_codes(m, 0, lambda p: bw(p, at, z, np.array(pt))),
+                     _codes(m, 0, lambda p: bw.generate_weights(p, at, z, pt_ind=pt)),
+                     _codes(m, 0, lambda p: bw.compute_weights(p, at, z, pt_ind=pt))])
+    return obs, zero
+
+
+# ---- X2 / X3: extended 3-D replays, argument forms, state ------------------------------------
+
+def _spec_run(ent, radii, atc, pts, cut=None):
+    io = ent["io"]
+    m = len(atc)
+    env = {}
+    for k in range(3):
+        env[io["point"][k]] = pts[:, k]
+        for b in range(m):
+            env[io["atoms"][b][k]] = atc[b, k]
+    for b in range(m):
+        env[io["radii"][b]] = radii[b]
+    if cut is not None:
+        env[io["cut"]] = cut
+    e = run_program(ent["prog"], env, "np")
+    return np.array([np.broadcast_to(e[o], (len(pts),)) for o in io["outputs"]]).astype(float)
+
+
+def _judge(impl, mx, key, case, got, err, want, scale, nuc0, m):
+    """The clauses of 4b (route agreement, partition of unity, agreement with the specification) on one case."""
+    for r, e in err.items():
+        impl.append((f"raise:{r}:{key}", f"route {r} raised {e}", case))
+    if not got:
+        return
+    names = list(got)
+    ref = got[names[0]]
+    for r in names[1:]:
+        d = float(np.max(np.abs(got[r] - ref)))
+        mx["route"] = max(mx["route"], d if np.isfinite(d) else 0.0)
+        if not d <= _TOL["route"]:
+            impl.append((f"route-disagree:{r}:{key}", f"routes {names[0]} and {r} differ by {d:.3e}", case))
+    for r, v in got.items():
+        bad = []
+        if not np.all(np.isfinite(v)):
+            bad.append("non-finite weight")
+        else:
+            s = float(np.max(np.abs(v.sum(axis=0) - 1)))
+            lo, hi = float(v.min()), float(v.max())
+            dn = float(np.max(np.abs(v[:, nuc0:nuc0 + m] - np.eye(m))))
+            mx["unity"] = max(mx["unity"], s, -lo, hi - 1, dn)
+            if s > _TOL["unity"]:
+                bad.append(f"weights sum to 1 +- {s:.3e}")
+            if lo < -_TOL["unity"] or hi > 1 + _TOL["unity"]:
+                bad.append(f"weights range [{lo!r}, {hi!r}]")
+            if dn > _TOL["unity"]:
+                bad.append(f"nucleus values off by {dn:.3e}")
+        for b in bad:
+            impl.append((f"unity:{r}:{b.split()[0]}:{key}", f"route {r}: {b}", case))
+    if want is not None:
+        for r, v in got.items():
+            d = np.abs(v - want) / scale
+            dm = float(np.max(np.nan_to_num(d, nan=np.inf)))
+            mx["spec_3d"] = max(mx["spec_3d"], dm if np.isfinite(dm) else 0.0)
+            if not dm <= _TOL["spec_3d"]:
+                i, j = np.unravel_index(np.argmax(np.nan_to_num(d, nan=np.inf)), d.shape)
+                impl.append((f"value:{r}:{key}", f"route {r}: atom {i} point {case['points'][j].tolist()}: library {v[i, j]!r}, "
+                             f"specification {want[i, j]!r}", case))
+
+
+def _scale_of(atc, pts):
+    m = len(atc)
+    dmin = 1.0 if m == 1 else float(np.min(np.linalg.norm(atc[:, None] - atc[None], axis=-1) + np.eye(m) * 1e300))
+    rfar = np.min(np.linalg.norm(pts[:, None] - atc[None], axis=-1), axis=1)
+    return 1.0 + rfar / dmin
+
+
+def _stack(f, m, n):
+    """f(b) for every atom b -> (array(M, N), None) or (None, error text)."""
+    rows = []
+    for b in range(m):
+        v, e = _call(f, b)
+        if e is None and v.shape != (n,):
+            e = f"result shape {v.shape}, expected {(n,)}"
+        if e is not None:
+            return None, e
+        rows.append(v)
+    return np.array(rows), None
+
+
+def _forms(bw, pts, atc, z, got):
+    """X3: the same request spelled differently must give the same numbers.  Returns [(form, reference route, value|None, error)]."""
+    m, n = len(atc), len(pts)
+    stacked = np.tile(pts, (m, 1))
+    idx = np.arange(m + 1) * n
+    out = []
+
+    def per_atom(name, ref, f):
+        v, e = _stack(f, m, n)
+        out.append((name, ref, v, e))
+
+    def whole(name, f):
+        v, e = _call(f)
+        if e is None and v.shape != (m * n,):
+            v, e = None, f"result shape {v.shape}, expected {(m * n,)}"
+        out.append((name, "call", None if v is None else v.reshape(m, n), e))
+
+    per_atom("generate:select=np.int64", "generate:select", lambda b: bw.generate_weights(pts, atc, z, select=np.int64(b)))
+    per_atom("generate:select=np.int32", "generate:select", lambda b: bw.generate_weights(pts, atc, z, select=np.int32(b)))
+    per_atom("generate:select=[b]", "generate:select", lambda b: bw.generate_weights(pts, atc, z, select=[b]))
+    per_atom("generate:select=(b,)", "generate:select", lambda b: bw.generate_weights(pts, atc, z, select=(b,)))
+    per_atom("generate:select=array([b])", "generate:select", lambda b: bw.generate_weights(pts, atc, z, select=np.array([b])))
+    per_atom("generate:select=[b],pt_ind=[0,N]", "generate:select",
+             lambda b: bw.generate_weights(pts, atc, z, select=[b], pt_ind=[0, n]))
+    per_atom("compute:select=np.int64", "compute:select", lambda b: bw.compute_weights(pts, atc, z, select=np.int64(b)))
+    per_atom("compute:select=[b]", "compute:select", lambda b: bw.compute_weights(pts, atc, z, select=[b]))
+    per_atom("compute:select=array([b])", "compute:select", lambda b: bw.compute_weights(pts, atc, z, select=np.array([b])))
+    per_atom("compute:select=[b],pt_ind=[0,N]", "compute:select",
+             lambda b: bw.compute_weights(pts, atc, z, select=[b], pt_ind=[0, n]))
+    per_atom("atom:select=np.int64", "atom", lambda b: bw.compute_atom_weight(pts, atc, z, np.int64(b)))
+    per_atom("atom:cutoff=0.45", "atom", lambda b: bw.compute_atom_weight(pts, atc, z, b, cutoff=0.45))
+    whole("call:atnums=int32", lambda: bw(stacked, atc, z.astype(np.int32), idx))
+    whole("call:fortran-order", lambda: bw(np.asfortranarray(stacked), np.asfortranarray(atc), z, idx))
+    big_p, big_a = np.zeros((m * n, 6)), np.zeros((m, 5))
+    big_p[:, ::2] = stacked
+    big_a[:, 1:4] = atc
+    whole("call:strided-views", lambda: bw(big_p[:, ::2], big_a[:, 1:4], z, idx))
+    ro_p, ro_a, ro_z, ro_i = stacked.copy(), atc.copy(), z.copy(), idx.copy()
+    for a in (ro_p, ro_a, ro_z, ro_i):
+        a.flags.writeable = False
+    whole("call:read-only", lambda: bw(ro_p, ro_a, ro_z, ro_i))
+    per_atom("atom:read-only", "atom", lambda b: bw.compute_atom_weight(ro_p[:n], ro_a, ro_z, b))
+    per_atom("generate:read-only", "generate:select", lambda b: bw.generate_weights(ro_p[:n], ro_a, ro_z, select=b))
+    whole("call:longdouble", lambda: bw(stacked.astype(np.longdouble), atc.astype(np.longdouble), z, idx))
+    return out
+
+
+def _audit_worker(job):
+    """X2 + X3.  Returns (count, violations, maxima, distinct keys)."""
+    px_path, radii_of, seed, count, undefined = job
+    programs = _load_json(px_path)
+    rng = np.random.default_rng(seed)
+    impl = []
+    mx = {k: 0.0 for k in ("route", "spec_3d", "unity", "forms", "state", "float32")}
+    keys = []
+    shared = {}
+    first = None
+    for it in range(count):
+        kind = ("many-atoms", "high-order", "close", "distant", "lattice")[(it + seed) % 5]
+        order = 3
+        if kind == "many-atoms":
+            m = int(rng.integers(10, MAX_ATOMS_X + 1))
+            atc = _random_geometry(rng, m)
+        elif kind == "high-order":
+            m = int(rng.integers(1, 7))
+            order = int(rng.integers(4, MAX_ORDER_X + 1))
+            atc = _random_geometry(rng, m)
+        elif kind == "close":
+            m = int(rng.integers(2, 6))
+            atc = _random_geometry(rng, m) * float(rng.uniform(0.05, 0.5))     # shortest distance down to 0.045
+        elif kind == "distant":
+            m = int(rng.integers(2, 6))
+            atc = _random_geometry(rng, m) * float(rng.uniform(10, 60)) + rng.normal(size=3) * float(10 ** rng.uniform(1, 4))
+        else:
+            m = int(rng.integers(2, 7))
+            cells = rng.permutation(9 ** 3)[:m]
+            atc = np.stack([cells // 81 - 4, (cells // 9) % 9 - 4, cells % 9 - 4], axis=1).astype(float)
+        z = np.array(rng.integers(1, 87, size=m), dtype=int)
+        if rng.random() < 0.35:
+            z[rng.integers(0, m)] = int(rng.choice(undefined))
+        if kind == "lattice":
+            pts = np.vstack([rng.integers(-6, 7, size=(10, 3)).astype(float), atc])
+            nuc0 = 10
+        elif kind == "close":
+            spread = float(np.max(np.abs(atc - atc.mean(axis=0)))) + 0.05
+            pts = np.vstack([atc[rng.integers(0, m, size=10)] + rng.normal(size=(10, 3)) * spread,
+                             atc.mean(axis=0) + rng.normal(size=(3, 3)) * 30, atc])
+            nuc0 = 13
+        elif kind == "distant":
+            pts = np.vstack([atc[rng.integers(0, m, size=12)] + rng.normal(size=(12, 3)) * 2.0, atc])
+            nuc0 = 12
+        else:
+            pts, nuc0 = _points_for(rng, atc)
+        key = f"seed={seed}:case={it}:{kind}:M={m}:order={order}:Z={z.tolist()}"
+        case = {"atcoords": atc, "atnums": z, "order": order, "points": pts, "kind": kind}
+        keys.append((kind, m, order, tuple(sorted(z.tolist()))))
+        scale = _scale_of(atc, pts)
+        keep = (atc.copy(), z.copy(), pts.copy())
+        bw = _becke(order)
+        got, err = routes(bw, pts, atc, z)
+        ent = programs["dim3"][m - 1][order - 1]
+        want = _spec_run(ent, [radii_of[int(v)] for v in z], atc, pts) if ent["prog"] else None
+        _judge(impl, mx, key, case, got, err, want, scale, nuc0, m)
+        if not got:
+            continue
+        # X3 argument forms
+        for name, ref, v, e in _forms(bw, pts, atc, z, got):
+            if e is not None:
+                impl.append((f"form:raise:{name}:{key}", f"{name} raised {e}", case))
+            elif ref in got:
+                # extended-precision inputs are MORE accurate than the float64 reference: judged like the
+                # specification (error of the reference grows with r / dmin), everything else like route agreement
+                ld = name.endswith("longdouble")
+                dev = np.abs(np.nan_to_num(v - got[ref], nan=np.inf)) / (scale if ld else 1.0)
+                d = float(np.max(dev))
+                mx["forms"] = max(mx["forms"], d if np.isfinite(d) else 0.0)
+                mx["forms:" + name] = max(mx.get("forms:" + name, 0.0), d if np.isfinite(d) else 0.0)
+                if not d <= (_TOL["spec_3d"] if ld else _TOL["route"]):
+                    impl.append((f"form:{name}:{key}", f"{name} differs from route {ref} by {d:.3e}" + (" (scaled)" if ld else ""), case))
+        if kind == "lattice" and "call" in got:   # integer coordinates handed over as integers
+            m_, n_ = m, len(pts)
+            v, e = _call(bw, np.tile(pts, (m_, 1)).astype(np.int64), atc.astype(np.int64), z, np.arange(m_ + 1) * n_)
+            if e is not None or v.shape != (m_ * n_,):
+                impl.append((f"form:raise:call:int64-coordinates:{key}", f"integer-typed coordinates: {e or v.shape}", case))
+            elif not np.max(np.abs(v.reshape(m_, n_) - got["call"])) <= _TOL["route"]:
+                impl.append((f"form:call:int64-coordinates:{key}", "integer-typed coordinates give other weights than the same "
+                             f"values as floats (diff {np.max(np.abs(v.reshape(m_, n_) - got['call'])):.3e})", case))
+        if kind in ("many-atoms", "high-order", "lattice") and "atom" in got:    # float32 inputs
+            p32, a32 = pts.astype(np.float32), atc.astype(np.float32)
+            r64, e1 = _stack(lambda b: bw.compute_atom_weight(p32.astype(float), a32.astype(float), z, b), m, len(pts))
+            r32, e2 = _stack(lambda b: bw.compute_atom_weight(p32, a32, z, b), m, len(pts))
+            ok32 = np.min(np.linalg.norm(a32[:, None].astype(float) - a32[None].astype(float), axis=-1) + np.eye(m) * 9) > 0.5
+            if e2 is not None:
+                impl.append((f"form:raise:atom:float32:{key}", f"float32 coordinates: {e2}", case))
+            elif e1 is None and ok32:
+                near = scale < 8
+                d = float(np.max(np.abs(r32 - r64)[:, near])) if near.any() else 0.0
+                mx["float32"] = max(mx["float32"], d if np.isfinite(d) else 0.0)
+                if not d <= _TOL["float32"]:
+                    impl.append((f"form:atom:float32:{key}", f"float32 coordinates change the weights by {d:.3e}", case))
+        if not (np.array_equal(keep[0], atc) and np.array_equal(keep[1], z) and np.array_equal(keep[2], pts)):
+            impl.append((f"state:inputs-modified:{key}", "a route modified the caller's atcoords / atnums / points", case))
+            atc, z, pts = keep
+        # one instance reused for different molecules; custom radii must not leak into other instances
+        if "call" in got:
+            sh = shared.setdefault(order, _becke(order))
+            z_other = np.array([int(q) for q in rng.integers(1, 87, size=m)])
+            routes(sh, pts[:3], atc, z_other)              # same number of atoms, other elements, just before
+            routes(sh, pts[:3], atc[::-1] * 1.25, z)       # same elements, other geometry
+            v, _ = routes(sh, pts, atc, z)
+            d = float(np.max(np.abs(v["call"] - got["call"]))) if "call" in v else float("inf")
+            mx["state"] = max(mx["state"], d if np.isfinite(d) else 0.0)
+            if not d <= _TOL["route"]:
+                impl.append((f"state:reused-instance:{key}", "an instance that evaluated other molecules before gives other "
+                             f"weights than a fresh one (diff {d:.3e})", case))
+            if first is None:
+                first = (order, atc, z, pts, got["call"], key, case)
+            custom = _becke(order, {int(v_): 7.7 + 0.1 * i for i, v_ in enumerate(sorted(set(z.tolist())))})
+            routes(custom, pts[:2], atc, z)
+            v, _ = routes(_becke(order), pts, atc, z)
+            d = float(np.max(np.abs(v["call"] - got["call"]))) if "call" in v else float("inf")
+            mx["state"] = max(mx["state"], d if np.isfinite(d) else 0.0)
+            if not d <= _TOL["route"]:
+                impl.append((f"state:radii-leak:{key}", "after another instance was built with custom radii a default "
+                             f"instance gives other weights (diff {d:.3e})", case))
+    if first is not None and first[0] in shared:
+        order, atc, z, pts, ref, key, case = first
+        v, _ = routes(shared[order], pts, atc, z)
+        d = float(np.max(np.abs(v["call"] - ref))) if "call" in v else float("inf")
+        if not d <= _TOL["route"]:
+            impl.append((f"state:reused-instance:again:{key}", f"the first molecule evaluated again at the end differs by {d:.3e}", case))
+    return count, impl, mx, keys
+
+
+# ---- X4: radii overrides x fall-back, user cut-off ------------------------------------------------
+
+def _scenarios(rep, rng, scenarios, programs, defined, per):
+    """BeckeWeights(radii={z: value | nan}): the element table of the scenario (TLC: ScenarioTable) says whose radius
+    every element uses; the library must reproduce the spec program run with exactly those radii."""
+    mx = 0.0
+    for si, sc in enumerate(scenarios):
+        table = {int(z): int(src) for z, src in sc["table"]}
+        override = {int(z): 1.1 + 0.37 * k for k, z in enumerate(sorted(sc["add"]))}
+        value = dict(defined)
+        value.update(override)
+        override.update({int(z): float("nan") for z in sc["del"]})
+        base = {z: (z if z in defined else (z - 1 if z - 1 in defined else z - 2)) for z in table}
+        affected = sorted(z for z in table if table[z] != base[z] or z in sc["add"])
+        for rnd in range(per):
+            m = int(rng.integers(2, 5))
+            atc = _random_geometry(rng, m)
+            z = np.array([int(v) for v in rng.integers(1, 87, size=m)])
+            z[int(rng.integers(0, m))] = affected[(rnd + si) % len(affected)]
+            pts, nuc0 = _points_for(rng, atc)
+            order = 3
+            key = f"scenario={si}:add={sorted(sc['add'])}:del={sorted(sc['del'])}:Z={z.tolist()}"
+            case = {"atcoords": atc, "atnums": z, "points": pts, "radii_override": {k: repr(v) for k, v in override.items()}}
+            rep.evaluated(1, ("scenario", si, tuple(z.tolist())))
+            bw, e = None, None
+            try:
+                bw = _becke(order, dict(override))
+            except Exception as ex:  # noqa: BLE001
+                e = f"{type(ex).__name__}: {ex}"
+            if bw is None:
+                rep.violation(f"override:raise:{key}", f"BeckeWeights(radii={override}) raised {e}", case)
+                continue
+            got, err = routes(bw, pts, atc, z)
+            want = _spec_run(programs["dim3"][m - 1][order - 1], [value[table[int(v)]] for v in z], atc, pts)
+            for r, e in err.items():
+                rep.violation(f"override:raise:{r}:{key}", f"route {r} raised {e}", case)
+            scale = _scale_of(atc, pts)
+            for r, v in got.items():
+                d = float(np.max(np.nan_to_num(np.abs(v - want) / scale, nan=np.inf)))
+                mx = max(mx, d if np.isfinite(d) else 0.0)
+                if not d <= _TOL["spec_3d"]:
+                    rep.violation(f"override:{r}:{key}", f"route {r} with radii override {override}: weights differ by {d:.3e} "
+                                  f"(scaled) from the specification run with the radii of elements {[table[int(v)] for v in z]}", case)
+    return mx
+
+
+def _cutoff(rep, rng, programs, radii_of, ncases):
+    """compute_atom_weight(..., cutoff=c), c < 1/2: a partition of unity equal to the specification run with the
+    cut-off c (parameter honoured) or with 0.45 (parameter ignored; the routes without the parameter use 0.45)."""
+    mx = 0.0
+    verdicts = {}
+    for it in range(ncases):
+        m = int(rng.integers(1, 6))
+        order = int(rng.choice([1, 2, 3]))
+        atc = _random_geometry(rng, m)
+        # radius ratios beyond 2.4 make the raw value exceed every cut-off tried
+        z = np.array([int(v) for v in rng.choice([1, 3, 6, 8, 11, 19, 37, 55, 9, 17], size=m)])
+        pts, nuc0 = _points_for(rng, atc)
+        scale = _scale_of(atc, pts)
+        bw = _becke(order)
+        ent = programs["dim3c"][m - 1][order - 1]
+        for c in (0.1, 0.3, 0.45, 0.49):
+            key = f"cutoff={c}:case={it}:M={m}:order={order}:Z={z.tolist()}"
+            case = {"atcoords": atc, "atnums": z, "points": pts, "order": order, "cutoff": c}
+            rep.evaluated(1, ("cutoff", c, m, order))
+            v, e = _stack(lambda b: bw.compute_atom_weight(pts, atc, z, b, cutoff=c), m, len(pts))
+            if e is not None:
+                rep.violation(f"cutoff:raise:{key}", f"compute_atom_weight(cutoff={c}) raised {e}", case)
+                continue
+            impl = []
+            loc = {"route": 0.0, "unity": 0.0, "spec_3d": 0.0}
+            _judge(impl, loc, key, dict(case), {"atom:cutoff": v}, {}, None, scale, nuc0, m)
+            for k_, w_, c_ in impl:
+                rep.violation("cutoff:" + k_, w_, c_)
+            rad = [radii_of[int(q)] for q in z]
+            dev = {}
+            for name, cc in (("honoured", c), ("ignored", 0.45)):
+                want = _spec_run(ent, rad, atc, pts, cut=cc)
+                dev[name] = float(np.max(np.nan_to_num(np.abs(v - want) / scale, nan=np.inf)))
+            best = min(dev, key=dev.get)
+            mx = max(mx, dev[best])
+            if not dev[best] <= _TOL["spec_3d"]:
+                rep.violation(f"cutoff:value:{key}", f"compute_atom_weight(cutoff={c}) is neither the Becke weight with cut-off {c} "
+                              f"(diff {dev['honoured']:.3e}) nor with the default 0.45 (diff {dev['ignored']:.3e})", case)
+            elif c != 0.45 and abs(dev["honoured"] - dev["ignored"]) > 1e-6:
+                verdicts[best] = verdicts.get(best, 0) + 1
+    rep.set("compute_atom_weight_cutoff_parameter", verdicts)
+    return mx
+
+
+# ---- X5: Hirshfeld against the tabulated pro-atom data ---------------------------------------------
+
+def proatom_tables():
+    """{Z: (r, density)} read from the data files shipped with /repo (grid/data/proatoms/aZZZ.npz)."""
+    import os
+    import re
+    import grid
+    d = os.path.join(os.path.dirname(grid.__file__), "data", "proatoms")
+    out = {}
+    for f in sorted(os.listdir(d)):
+        mt = re.fullmatch(r"a(\d{3})\.npz", f)
+        if mt:
+            with np.load(os.path.join(d, f)) as data:
+                out[int(mt.group(1))] = (np.array(data["r"], dtype=float), np.array(data["dn"], dtype=float))
+    return out
+
+
+def _hirshfeld_table(rep, rng, programs, ncases):
+    """Two atoms A, B and points on the circle where the sphere of tabulated radius r_i around A meets the sphere of
+    tabulated radius r_j around B: both pro-atom densities are table entries, whatever the interpolation in between,
+    so the share is known from the data alone (spec: HirshProgram).  Plus: rigid motion and relabelling."""
+    from grid.hirshfeld import HirshfeldWeights
+    tabs = proatom_tables()
+    rep.set("proatom_elements", sorted(tabs))
+    if not tabs:
+        raise tlc.MachineryError("no pro-atom tables found in grid/data/proatoms")
+    hw = HirshfeldWeights()
+    zs = sorted(tabs)
+    good = {z: np.where((tabs[z][0] >= 0.02) & (tabs[z][0] <= 6.0) & (tabs[z][1] >= 1e-6))[0] for z in zs}
+    mx = {"hirsh_table": 0.0, "hirsh_rigid": 0.0}
+    prog = programs["hirsh"][1]
+    for it in range(ncases):
+        za, zb = int(zs[it % len(zs)]), int(zs[(it // len(zs) + it) % len(zs)])
+        pts, ra, rb = [], [], []
+        rot = _random_orthogonal(rng)
+        shift = rng.normal(size=3) * 2
+        for _ in range(40):
+            i, j = int(rng.choice(good[za])), int(rng.choice(good[zb]))
+            r1, r2 = tabs[za][0][i], tabs[zb][0][j]
+            lo, hi = abs(r1 - r2), r1 + r2
+            if hi - lo < 0.2 or len(pts) >= 8:
+                continue
+            pts.append((i, j))
+        if not pts:
+            continue
+        # one internuclear distance for all points of the case: choose it inside every (lo, hi) if possible
+        los = [abs(tabs[za][0][i] - tabs[zb][0][j]) for i, j in pts]
+        his = [tabs[za][0][i] + tabs[zb][0][j] for i, j in pts]
+        d = float(rng.uniform(0.7, 3.0))
+        sel = [(i, j) for (i, j), lo, hi in zip(pts, los, his) if lo + 0.05 < d < hi - 0.05]
+        if not sel:
+            continue
+        xyz = []
+        for i, j in sel:
+            r1, r2 = tabs[za][0][i], tabs[zb][0][j]
+            x = (d * d + r1 * r1 - r2 * r2) / (2 * d)
+            h = np.sqrt(max(r1 * r1 - x * x, 0.0))
+            phi = rng.uniform(0, 2 * np.pi)
+            xyz.append([h * np.cos(phi), h * np.sin(phi), x])
+        atc = np.array([[0.0, 0.0, 0.0], [0.0, 0.0, d]]) @ rot.T + shift
+        xyz = np.array(xyz) @ rot.T + shift
+        # keep the points whose distances, as the library will compute them, hit the tabulated radii to 1e-13
+        # (|d ln rho / dr| <= 2 Z <= 16 on the knots used, so the density is reproduced to 2e-12 relative)
+        da = np.linalg.norm(xyz - atc[0], axis=1)
+        db = np.linalg.norm(xyz - atc[1], axis=1)
+        ok = [k for k, (i, j) in enumerate(sel)
+              if abs(da[k] - tabs[za][0][i]) <= 1e-13 and abs(db[k] - tabs[zb][0][j]) <= 1e-13]
+        if not ok:
+            continue
+        xyz = xyz[ok]
+        sel = [sel[k] for k in ok]
+        rho_a = np.array([tabs[za][1][i] for i, _ in sel])
+        rho_b = np.array([tabs[zb][1][j] for _, j in sel])
+        n = len(sel)
+        case = {"atcoords": atc, "atnums": [za, zb], "points": xyz, "knots": sel}
+        rep.evaluated(1, ("hirshfeld-table", za, zb, n))
+        key = f"Z={za},{zb}:case={it}"
+        e = run_program(prog["prog"], {prog["io"]["rho"][0]: rho_a, prog["io"]["rho"][1]: rho_b}, "np")
+        want = np.array([np.asarray(e[o], dtype=float) for o in prog["io"]["outputs"]])   # (2, n)
+        for b, (zz, rr) in enumerate(((za, rho_a), (zb, rho_b))):
+            v, err = _call(HirshfeldWeights.generate_proatom, xyz, atc[b], zz)
+            if err is not None or v.shape != (n,):
+                rep.violation(f"hirshfeld:table:proatom:raise:{key}", f"generate_proatom raised / mis-shaped: {err}", case)
+                continue
+            dd = float(np.max(np.abs(v - rr) / rr))
+            mx["hirsh_table"] = max(mx["hirsh_table"], dd)
+            if not dd <= _TOL["hirsh_table"]:
+                rep.violation(f"hirshfeld:table:proatom:Z={zz}:case={it}", f"pro-atom density of element {zz} at a tabulated radius "
+                              f"differs from the tabulated value by {dd:.3e} (relative)", case)
+        got, err = _call(hw, np.vstack([xyz, xyz]), atc, np.array([za, zb]), np.array([0, n, 2 * n]))
+        if err is not None or got.shape != (2 * n,):
+            rep.violation(f"hirshfeld:table:raise:{key}", f"HirshfeldWeights() raised / mis-shaped: {err}", case)
+            continue
+        dd = float(np.max(np.abs(got.reshape(2, n) - want)))
+        mx["hirsh_table"] = max(mx["hirsh_table"], dd)
+        if not dd <= _TOL["hirsh_table"]:
+            rep.violation(f"hirshfeld:table:share:{key}", f"Hirshfeld weights at tabulated radii differ by {dd:.3e} from the share "
+                          "of the tabulated densities", case)
+    # rigid motion and relabelling (near points only: beyond the tables the extrapolated tails are ill-conditioned)
+    for it in range(ncases):
+        m = int(rng.integers(1, 6))
+        atc = _random_geometry(rng, m, dmin=1.2)
+        z = np.array([int(v) for v in rng.choice(zs, size=m)])
+        n = int(rng.integers(2, 12))
+        pts = atc[rng.integers(0, m, size=n)] + rng.normal(size=(n, 3)) * 0.8
+        idx = np.arange(m + 1) * n
+        st = np.tile(pts, (m, 1))
+        case = {"atcoords": atc, "atnums": z, "points": pts}
+        ref, e = _call(hw, st, atc, z, idx)
+        if e is not None:
+            continue   # reported by the share clause
+        rep.evaluated(1, ("hirshfeld-rigid", m, tuple(z.tolist())))
+        rot, shift = _random_orthogonal(rng), rng.normal(size=3) * 3
+        v, e = _call(hw, st @ rot.T + shift, atc @ rot.T + shift, z, idx)
+        dd = float(np.max(np.abs(v - ref))) if e is None and v.shape == ref.shape else float("inf")
+        mx["hirsh_rigid"] = max(mx["hirsh_rigid"], dd if np.isfinite(dd) else 0.0)
+        if not dd <= _TOL["hirsh_rigid"]:
+            rep.violation(f"hirshfeld:rigid-motion:M={m}:Z={z.tolist()}", f"Hirshfeld weights change by {dd:.3e} under a rigid motion ({e})", case)
+        perm = rng.permutation(m)
+        v, e = _call(hw, st, atc[perm], z[perm], idx)
+        dd = float(np.max(np.abs(v.reshape(m, n) - ref.reshape(m, n)[perm]))) if e is None and v.shape == ref.shape else float("inf")
+        mx["hirsh_rigid"] = max(mx["hirsh_rigid"], dd if np.isfinite(dd) else 0.0)
+        if not dd <= _TOL["hirsh_rigid"]:
+            rep.violation(f"hirshfeld:relabel:M={m}:Z={z.tolist()}", f"Hirshfeld weights change by {dd:.3e} when atoms are listed as {perm.tolist()} ({e})", case)
+    return mx
+
+
 def _report_some(rep, items, counter_name):
     seen = {}
     for it in items:
@@ -591,7 +1239,7 @@ def run(tier: str) -> int:
         phases[name] = round(time.time() - t0, 1)
         t0 = time.time()
 
-    pool = mp.get_context("fork").Pool(16)
+    pool = mp.get_context("fork").Pool(8)
     try:
         # ---- 2. algebra: lemmas, exact identities, emission ---------------------------------
         res = tlc.run_tlc("Becke", "MC_BeckeAlg.cfg", wd, workers=8, timeout=900).require_ok("MC_BeckeAlg")
@@ -606,6 +1254,8 @@ def run(tier: str) -> int:
             points = json.load(open(wd / "becke_points.json"))
             programs = json.load(open(wd / "becke_programs.json"))
             fallback = [tuple(x) for x in json.load(open(wd / "becke_fallback.json"))]
+            programs_x = _load_json(wd / "becke_programs_x.json")
+            scenarios = json.load(open(wd / "becke_scenarios.json"))
         except FileNotFoundError as e:
             raise tlc.MachineryError(f"TLC did not emit {e.filename}")
         geoms.sort(key=lambda g: json.dumps(g, sort_keys=True))
@@ -616,8 +1266,18 @@ def run(tier: str) -> int:
         obs, ntab = observe_chunks(maxm, maxn, pool)
         with open(wd / "obs_becke.json", "w") as f:
             json.dump(obs, f)
+        # audit extension X1: larger / differently typed cases, the empty grid, Hirshfeld ownership
+        xcases = extra_cases(rep.seed, quick)
+        obs_x, obs_zero = observe_extra(xcases, maxm, pool)
+        for name, val in (("extra_becke.json", xcases), ("obs_extra_becke.json", obs_x), ("obs_zero_becke.json", obs_zero)):
+            with open(wd / name, "w") as f:
+                json.dump(val, f)
+        rep.evaluated(len(xcases) * len(ROUTES_X), None)
+        for c in xcases:
+            rep.evaluated(0, ("chunk-extra", c["M"], c["N"]))
+        rep.set("extra_chunk_cases", len(xcases))
         mark("observe_chunks")
-        res = tlc.run_tlc("Becke", "MC_BeckeChunk.cfg", wd, workers=16, timeout=1500).require_ok("MC_BeckeChunk")
+        res = tlc.run_tlc("Becke", "MC_BeckeChunk.cfg", wd, workers=8, timeout=1500).require_ok("MC_BeckeChunk")
         rep.tlc(res, "MC_BeckeChunk")
         if res.status == "violation":
             st = tlc.last_state(res)
@@ -640,7 +1300,7 @@ def run(tier: str) -> int:
         mark("tlc_chunk")
         # seeded variants of the algorithm must be rejected by the same invariants
         detected = {}
-        for v in (("noclip",) if quick else ("noclip", "shiftplus")):
+        for v in (("noclip",) if quick else ("noclip", "shiftplus", "unsigned")):
             cfg = wd / f"V_{v}.cfg"
             cfg.write_text(f'CONSTANT Variant = "{v}"\nINIT InitChunk\nNEXT NextChunk\n'
                            "INVARIANT ChunkedEqualsDefinition\nINVARIANT NeverTwiceNeverForeign\nINVARIANT ChunkPrefix\n")
@@ -694,17 +1354,36 @@ def run(tier: str) -> int:
         rep.set("random_geometries", per * 80)
         if mx.get("np_vs_mp", 0.0) > 1e-15:
             raise tlc.MachineryError(f"vectorised evaluator deviates from the 50-digit evaluator by {mx['np_vs_mp']:.3e}")
+        mark("geometry_replay")
+        # ---- audit extension X2 / X3 ---------------------------------------------------------------
+        njobs, per = (40, 2) if quick else (80, 20)
+        jobs = [(str(wd / "becke_programs_x.json"), radii_of, rep.seed * 100000 + 50000 + i, per, undefined) for i in range(njobs)]
+        impl = []
+        for n, im, m_, keys in pool.imap_unordered(_audit_worker, jobs):
+            impl += im
+            for k, v in m_.items():
+                mx[k] = max(mx.get(k, 0.0), v)
+            for k in keys:
+                rep.evaluated(1, ("3dx",) + k)
+        _report_some(rep, sorted(impl, key=lambda t: t[0]), "audit_geometry_violations")
+        rep.set("audit_geometries", njobs * per)
+        mark("audit_replay")
     finally:
         pool.close()
         pool.join()
 
-    mark("geometry_replay")
     # ---- segment semantics, fall-back, Hirshfeld -----------------------------------------------
     _segment_semantics(rep, rng)
     _fallback(rep, rng, fallback, defined, 2 if quick else 12)
     mx["hirshfeld"] = _hirshfeld(rep, rng, 60 if quick else 1000)
 
     mark("segments_fallback_hirshfeld")
+    # ---- audit extension X4 / X5 -------------------------------------------------------------------
+    mx["override"] = _scenarios(rep, rng, scenarios, programs_x, defined, 2 if quick else 12)
+    mx["cutoff"] = _cutoff(rep, rng, programs_x, radii_of, 6 if quick else 80)
+    mx.update(_hirshfeld_table(rep, rng, programs_x, 16 if quick else 300))
+    rep.sample({"radii_override_scenarios_from_spec": [{"add": s_["add"], "del": s_["del"]} for s_ in scenarios]})
+    mark("overrides_cutoff_hirshfeld_table")
     rep.set("phase_wall_s", phases)
     rep.set("max_deviation_measured", {k: float(f"{v:.3e}") for k, v in sorted(mx.items())})
     rep.set("tolerances", _TOL)
@@ -750,6 +1429,42 @@ MUTANTS = [
      "proatom = HirshfeldWeights.generate_proatom(points, atcoords[index], atnums[0])"),
     ("hirshfeld: segment end off by one", "grid.hirshfeld", "start, end = indices[index], indices[index + 1]",
      "start, end = indices[index], indices[index + 1] - 1"),
+    # ---- audit extension ----
+    ("X1 call: table clipped from above at 12", "grid.becke", "pt_ind=(indices - ibegin).clip(min=0),",
+     "pt_ind=(indices - ibegin).clip(min=0, max=12),"),
+    ("X1 generate: tuple pt_ind taken for none", "grid.becke", "        if pt_ind is None:\n            pt_ind = []\n",
+     "        if pt_ind is None or isinstance(pt_ind, tuple):\n            pt_ind = []\n", 0),
+    ("X1 hirshfeld: int32 table ignored", "grid.hirshfeld", "start, end = indices[index], indices[index + 1]",
+     "start, end = (indices[index], indices[index + 1]) if np.asarray(indices).dtype != np.int32 else (0, len(points))"),
+    ("X2 switch: closed form up to order 3 only", "grid.becke", "for _i in range(order):", "for _i in range(min(order, 3)):"),
+    ("X2 generate: product over the first 9 partners", "grid.becke", "        s_ab = np.prod(s_ab, axis=-1)\n",
+     "        s_ab = np.prod(s_ab[..., :9], axis=-1) if s_ab.shape[-1] > 9 else np.prod(s_ab, axis=-1)\n", 0),
+    ("X3 generate: np.integer select not recognised", "grid.becke", "elif isinstance(select, (np.integer, int)):",
+     "elif isinstance(select, int):", 0),
+    ("X3 compute: np.integer select not recognised", "grid.becke", "elif isinstance(select, (np.integer, int)):",
+     "elif isinstance(select, int):", 1),
+    ("X3 generate: one sector honours pt_ind start only", "grid.becke", "            weights += s_ab[:, select[0]] / np.sum(s_ab, axis=-1)\n",
+     "            weights[len(pt_ind) // 2:] += (s_ab[:, select[0]] / np.sum(s_ab, axis=-1))[len(pt_ind) // 2:]\n"),
+    ("X3 atom: shifts the caller's arrays in place", "grid.becke", "        weights = np.zeros(len(points))\n",
+     "        weights = np.zeros(len(points))\n        points -= atcoords[0]\n        atcoords = atcoords - atcoords[0]\n", 1),
+    ("X3 radii table shared by all instances", "grid.becke",
+     "self._radii = dict([(i + 1, radius) for i, radius in enumerate(data)])",
+     "self._radii = globals().setdefault('_SHARED_RADII', dict([(i + 1, radius) for i, radius in enumerate(data)]))"),
+    ("X3 alpha cached per number of atoms", "grid.becke", "        alpha = BeckeWeights._calculate_alpha(radii)\n",
+     "        alpha = self.__dict__.setdefault('_acache', {}).setdefault(len(radii), BeckeWeights._calculate_alpha(radii))\n", 0),
+    ("X4 fall-back reads the built-in table", "grid.becke", "else np.nan_to_num(self._radii[num - 1]) or",
+     "else np.nan_to_num(get_cov_radii(np.array([num - 1]), 'bragg')[0]) or", 0),
+    ("X4 override of an element without radius ignored", "grid.becke", "            self._radii.update(radii)\n",
+     "            self._radii.update({k: v for k, v in radii.items() if not np.isnan(self._radii.get(k, 1.0))})\n"),
+    ("X4 atom: user cut-off applied without bound", "grid.becke", "        alpha = BeckeWeights._calculate_alpha(radii)\n",
+     "        alpha = BeckeWeights._calculate_alpha(radii, cutoff=(cutoff if cutoff == 0.45 else cutoff + 0.2))\n", 1),
+    ("X5 pro-atom: distance scaled", "grid.hirshfeld", "dist = np.linalg.norm(points[:, None] - coord, axis=-1)",
+     "dist = np.linalg.norm(points[:, None] - coord, axis=-1) * 1.01"),
+    ("X5 pro-atom: city-block distance", "grid.hirshfeld", "dist = np.linalg.norm(points[:, None] - coord, axis=-1)",
+     "dist = np.abs(points[:, None] - coord).sum(axis=-1)"),
+    ("X5 pro-atom: data of the next lighter tabulated element", "grid.hirshfeld",
+     'data = np.load(files("grid.data.proatoms").joinpath(f"a{num:03d}.npz"))',
+     'data = np.load(files("grid.data.proatoms").joinpath(f"a{(6 if num == 7 else num):03d}.npz"))'),
 ]
 
 
